@@ -274,7 +274,20 @@ class NonLabels(Sub):
         return None
 
 
+_CONF = []
+
+
+def prewarm():
+    confusables()
+
+
 def confusables():
+    if not _CONF:
+        _CONF.extend(_confusables())
+    return _CONF
+
+
+def _confusables():
     """every non-ASCII code point that some Unicode transformation (upper, lower, casefold, NFKC/NFKD
     normalisation, digit value) maps into the ASCII label alphabet [A-Za-z0-9$]"""
     import unicodedata
